@@ -32,7 +32,8 @@ type AssetInfo struct {
 	Code     common.Hash
 	Issuer   *Actor
 	Category uint32
-	Ids      []common.Hash // issued ids (for category 1: the code itself)
+	Ids      []common.Hash            // issued ids (for category 1: the code itself)
+	Holders  map[common.Hash][]*Actor // asset id -> actors an issue was addressed to (they can transfer it on)
 }
 
 // TxGen draws transactions over a world, looking at the chain state where that makes the draw more interesting.
@@ -287,12 +288,24 @@ func (g *TxGen) asset(t *rapid.T, view *account.Manager, exp uint64) *GenTx {
 			from = g.anyActor(t, "notIssuer")
 		}
 		to := g.anyAddress(t, "holder")
+		if rapid.IntRange(0, 2).Draw(t, "issueToActor") != 0 {
+			to = g.anyActor(t, "holderActor").Addr
+		}
+		if rapid.IntRange(0, 2).Draw(t, "saneIssue") != 0 {
+			amount = rapid.SampledFrom([]string{"7", "100", "1000"}).Draw(t, "saneAmount")
+		}
 		tx := IssueAsset(from, to, a.Code, amount, exp, g.next())
 		if from == a.Issuer {
+			id := tx.Hash()
 			if a.Category == types.TokenAsset {
-				a.Ids = addUnique(a.Ids, a.Code)
-			} else {
-				a.Ids = append(a.Ids, tx.Hash())
+				id = a.Code
+			}
+			a.Ids = addUnique(a.Ids, id)
+			if actor := g.W.ActorByAddr(to); actor != nil {
+				if a.Holders == nil {
+					a.Holders = map[common.Hash][]*Actor{}
+				}
+				a.Holders[id] = append(a.Holders[id], actor)
 			}
 		}
 		return &GenTx{Tx: tx, Kind: "issue-asset", Note: fmt.Sprintf("%s issues %s of %s to %s", from.Name, amount, a.Code.Hex()[58:], to.Hex()[34:])}
@@ -321,6 +334,12 @@ func (g *TxGen) asset(t *rapid.T, view *account.Manager, exp uint64) *GenTx {
 		id := a.Code
 		if len(a.Ids) > 0 {
 			id = a.Ids[rapid.IntRange(0, len(a.Ids)-1).Draw(t, "assetId")]
+		}
+		if hs := a.Holders[id]; len(hs) > 0 && rapid.IntRange(0, 4).Draw(t, "fromHolder") != 0 {
+			from = hs[rapid.IntRange(0, len(hs)-1).Draw(t, "holderIdx")]
+		}
+		if rapid.IntRange(0, 1).Draw(t, "saneTransfer") != 0 {
+			amount = rapid.SampledFrom([]string{"1", "7", "100"}).Draw(t, "saneAmount")
 		}
 		to := g.anyAddress(t, "assetTo")
 		if rapid.IntRange(0, 9).Draw(t, "toSelf") == 0 {
